@@ -625,7 +625,7 @@ class RoundTripX(Oracle):
             sibs = tree if par is None else self.node_at(tree, par)[1]
             with_attr = rng.random() < 0.3
             # JSON attributes: on a node with children they are printed inside the object; on a value node the parser
-            # does not take the @member of an unknown member for metadata (finding json-opaq-unknown-meta): attributes go
+            # does not take the @member of an unknown member for metadata (listed finding json-opaq-unknown-meta): attributes go
             # on nodes that get a child
             leaf = (rng.random() < 0.6) and not (with_attr and not xml)
             val = xval(rng) if leaf else ""
@@ -946,5 +946,11 @@ class WellFormedX(Oracle):
                 try:
                     json.loads(data.decode("utf-8"))
                 except (ValueError, UnicodeDecodeError) as e:
-                    return (None, "printed JSON is not RFC 8259 JSON (%s): %s: %r" % (fam, e, data[:200]))
+                    tag = None
+                    import re
+                    if fam == "opaq-xml" and isinstance(e, json.JSONDecodeError) and re.search(r'[\]}"el0-9],\s*"@[^"]*"\s*$', data.decode("utf-8")[:e.pos]):
+                        # an "@name" member where an array element is expected: the attributes of a value instance among
+                        # equally named opaque siblings that are printed as an array of objects and values
+                        tag = "json-opaq-array-attr"
+                    return (tag, "printed JSON is not RFC 8259 JSON (%s): %s: %r" % (fam, e, data.decode("utf-8", "replace")[max(0, getattr(e, "pos", 0) - 120):][:200]))
         return None
